@@ -1,10 +1,1118 @@
-//! C20 — not built yet.
-use crate::{sx::Sx, Emitter};
+//! C20 — power-level helpers of ruma-events (`RoomPowerLevels::user_can_*`, `for_user`, `for_action`)
+//! against the real `ruma_state_res::auth_check` on the event a client would send, and against
+//! the `sender_notification_permission` push condition of ruma-common.
+//!
+//! case    = ( version content actor target tm op type state_key n extra )
+//!   content : the `m.room.power_levels` content (JSON object, sx::obj_to_sx)
+//!   tm      : () target has no member event | ( membership )
+//!   op      : see `OPS`
+//!   n       : the new level of op 15
+//!   extra   : () | ( event state )  the candidate event and the room state the harness ran
+//!             `auth_check` on, in C08's encoding (the model rebuilds both and compares)
+//! outcome = ( h ( helper dispatch levels auth built users ) )     h = 0 helper says yes (or returns a level)
+//!                                                            1 helper says no / content does not deserialize
+//!           ( 2 ) a panic on either side
+//!   helper   : () content does not deserialize | ( bool ) | ( level )
+//!   dispatch : () | ( bool )   the same question through user_can_do / user_can_do_to_user
+//!   levels   : ( level .. )    for_action(..) and for_message / for_state where they apply
+//!   auth     : () not applicable | ( bool ) verdict of auth_check / of the push condition
+//!              | ( 0 level ) | ( 1 )  for op 7: Ok(level) / Err of state-res' user_power_level
+//!   built    : () | ( 1 )      extra was attached
+//!   users    : () | ( for_user(actor) for_user(target) )
+use std::collections::BTreeMap;
 
-pub fn run(_tier: &str, _seed: u64, _em: &mut Emitter) {}
+use js_int::{Int, UInt};
+use ruma_common::{
+    push::{FlattenedJson, PushCondition, PushConditionPowerLevelsCtx, PushConditionRoomCtx},
+    serde::Raw,
+    CanonicalJsonObject, CanonicalJsonValue, OwnedEventId, RoomId, UserId,
+};
+use ruma_events::{
+    room::power_levels::{
+        NotificationPowerLevelType, PowerLevelAction, PowerLevelUserAction, RedactedRoomPowerLevelsEventContent,
+        RoomPowerLevels, RoomPowerLevelsEventContent,
+    },
+    MessageLikeEventType, StateEventType,
+};
+use ruma_state_res::events::RoomPowerLevelsEvent;
+use serde_json::json;
 
-pub fn replay(_case: &Sx) -> Option<Sx> {
-    None
+use crate::{
+    c08::{cj, cobj, ev_to_sx, mk_ev, run_auth, rules_of, state_to_sx, Ev, Lv, Pl, State, LEVEL_STRINGS},
+    rng::Rng,
+    sx::{guarded, obj_to_sx, sx_to_obj, Sx},
+    Emitter,
+};
+
+pub const ROOM: &str = "!room:s1";
+pub const CREATOR: &str = "@creator:s1";
+pub const ALICE: &str = "@alice:s1";
+pub const BOB: &str = "@bob:s1";
+pub const CAROL: &str = "@carol:s1";
+
+pub const OP_BAN_USER: u8 = 0;
+pub const OP_KICK_USER: u8 = 1;
+pub const OP_UNBAN_USER: u8 = 2;
+pub const OP_INVITE: u8 = 3;
+pub const OP_SEND_MESSAGE: u8 = 4;
+pub const OP_SEND_STATE: u8 = 5;
+pub const OP_NOTIFY_ROOM: u8 = 6;
+pub const OP_FOR_USER: u8 = 7;
+pub const OP_BAN: u8 = 8;
+pub const OP_KICK: u8 = 9;
+pub const OP_UNBAN: u8 = 10;
+pub const OP_REDACT_OWN: u8 = 12;
+pub const OP_REDACT_OTHER: u8 = 13;
+pub const OP_THIRD_PARTY_INVITE: u8 = 14;
+pub const OP_CHANGE_LEVEL: u8 = 15;
+pub const OPS: &[u8] = &[0, 1, 2, 3, 4, 5, 6, 7, 8, 9, 10, 12, 13, 14, 15];
+
+#[derive(Clone, Debug)]
+pub struct Case {
+    pub v: u32,
+    pub content: CanonicalJsonObject,
+    pub actor: String,
+    pub target: String,
+    pub tm: Option<String>,
+    pub op: u8,
+    pub ty: String,
+    pub sk: String,
+    pub n: i64,
+    pub extra: bool,
 }
 
-pub fn dump(_dir: &str) {}
+// ---------------------------------------------------------------------------------------------
+// The room the question is asked about, and the event a client would send
+// ---------------------------------------------------------------------------------------------
+fn eid(s: &str) -> OwnedEventId {
+    OwnedEventId::try_from(s).unwrap()
+}
+
+fn member_ev(id: &str, user: &str, membership: &str) -> Ev {
+    let mut e = mk_ev(id, ROOM, user, "m.room.member", Some(user), cobj(json!({ "membership": membership })));
+    e.prev = vec![eid("$create")];
+    e.auth = vec![eid("$create")];
+    e
+}
+
+/// Create event by someone else, exactly this power-levels event, the actor joined, the target
+/// with the given membership (no member event when `tm` is `None`).
+pub fn state_of(c: &Case) -> State {
+    let create = mk_ev("$create", ROOM, CREATOR, "m.room.create", Some(""), cobj(json!({ "creator": CREATOR })));
+    let mut pl = mk_ev("$pl", ROOM, CREATOR, "m.room.power_levels", Some(""), c.content.clone());
+    pl.prev = vec![eid("$create")];
+    pl.auth = vec![eid("$create")];
+    let mut st: State = vec![
+        (("m.room.create".to_owned(), String::new()), create),
+        (("m.room.power_levels".to_owned(), String::new()), pl),
+        (("m.room.member".to_owned(), c.actor.clone()), member_ev("$ma", &c.actor, "join")),
+    ];
+    if c.target != c.actor {
+        if let Some(m) = &c.tm {
+            st.push((("m.room.member".to_owned(), c.target.clone()), member_ev("$mt", &c.target, m)));
+        }
+    }
+    st
+}
+
+/// `users[target] := n` in the power-levels content.
+fn with_user_level(content: &CanonicalJsonObject, user: &str, n: i64) -> CanonicalJsonObject {
+    let mut users = match content.get("users") {
+        Some(CanonicalJsonValue::Object(m)) => m.clone(),
+        _ => CanonicalJsonObject::new(),
+    };
+    users.insert(user.to_owned(), cj(json!(n)));
+    let mut out = content.clone();
+    out.insert("users".to_owned(), CanonicalJsonValue::Object(users));
+    out
+}
+
+/// The event whose authorization decides the question (`None`: the question is not about an event).
+pub fn minimal_event(c: &Case) -> Option<Ev> {
+    let member = |m: &str| ("m.room.member".to_owned(), Some(c.target.clone()), cobj(json!({ "membership": m })));
+    let (ty, skey, content) = match c.op {
+        OP_BAN_USER => member("ban"),
+        OP_KICK_USER | OP_UNBAN_USER => member("leave"),
+        OP_INVITE => member("invite"),
+        OP_SEND_MESSAGE => (c.ty.clone(), None, CanonicalJsonObject::new()),
+        OP_REDACT_OWN => ("m.room.redaction".to_owned(), None, CanonicalJsonObject::new()),
+        OP_SEND_STATE => {
+            let content =
+                if c.ty == "m.room.power_levels" { c.content.clone() } else { CanonicalJsonObject::new() };
+            (c.ty.clone(), Some(c.sk.clone()), content)
+        }
+        OP_THIRD_PARTY_INVITE => ("m.room.third_party_invite".to_owned(), Some(c.sk.clone()), CanonicalJsonObject::new()),
+        OP_CHANGE_LEVEL => {
+            ("m.room.power_levels".to_owned(), Some(String::new()), with_user_level(&c.content, &c.target, c.n))
+        }
+        _ => return None,
+    };
+    let mut e = mk_ev("$ev", ROOM, &c.actor, &ty, skey.as_deref(), content);
+    e.prev = vec![eid("$prev")];
+    e.auth = vec![eid("$create"), eid("$pl"), eid("$ma")];
+    Some(e)
+}
+
+// ---------------------------------------------------------------------------------------------
+// Running both sides
+// ---------------------------------------------------------------------------------------------
+fn lvl(i: Int) -> Sx {
+    Sx::N(i64::from(i) as i128)
+}
+
+fn one(x: Sx) -> Sx {
+    Sx::L(vec![x])
+}
+
+fn none() -> Sx {
+    Sx::L(vec![])
+}
+
+/// ( yes, helper, dispatch, levels ) of the ruma-events side.
+fn helper_side(c: &Case, pl: &RoomPowerLevels) -> (bool, Sx, Sx, Sx) {
+    let actor = <&UserId>::try_from(c.actor.as_str()).unwrap();
+    let target = <&UserId>::try_from(c.target.as_str()).unwrap();
+    let b = |x: bool| one(Sx::b(x));
+    match c.op {
+        OP_BAN_USER => {
+            let h = pl.user_can_ban_user(actor, target);
+            let d = pl.user_can_do_to_user(actor, target, PowerLevelUserAction::Ban);
+            (h, b(h), b(d), Sx::L(vec![lvl(pl.for_action(PowerLevelAction::Ban))]))
+        }
+        OP_KICK_USER => {
+            let h = pl.user_can_kick_user(actor, target);
+            let d = pl.user_can_do_to_user(actor, target, PowerLevelUserAction::Kick);
+            (h, b(h), b(d), Sx::L(vec![lvl(pl.for_action(PowerLevelAction::Kick))]))
+        }
+        OP_UNBAN_USER => {
+            let h = pl.user_can_unban_user(actor, target);
+            let d = pl.user_can_do_to_user(actor, target, PowerLevelUserAction::Unban);
+            (h, b(h), b(d), Sx::L(vec![lvl(pl.for_action(PowerLevelAction::Unban))]))
+        }
+        OP_INVITE | OP_THIRD_PARTY_INVITE => {
+            let h = pl.user_can_invite(actor);
+            let d = pl.user_can_do_to_user(actor, target, PowerLevelUserAction::Invite)
+                && pl.user_can_do(actor, PowerLevelAction::Invite);
+            let d_any = pl.user_can_do_to_user(actor, target, PowerLevelUserAction::Invite)
+                || pl.user_can_do(actor, PowerLevelAction::Invite);
+            // both dispatchers must give the same answer; encode a disagreement as `2`
+            let d = if d == d_any { b(d) } else { one(Sx::N(2)) };
+            (h, b(h), d, Sx::L(vec![lvl(pl.for_action(PowerLevelAction::Invite))]))
+        }
+        OP_SEND_MESSAGE => {
+            let t = MessageLikeEventType::from(c.ty.as_str());
+            let h = pl.user_can_send_message(actor, t.clone());
+            let d = pl.user_can_do(actor, PowerLevelAction::SendMessage(t.clone()));
+            (
+                h,
+                b(h),
+                b(d),
+                Sx::L(vec![lvl(pl.for_action(PowerLevelAction::SendMessage(t.clone()))), lvl(pl.for_message(t))]),
+            )
+        }
+        OP_SEND_STATE => {
+            let t = StateEventType::from(c.ty.as_str());
+            let h = pl.user_can_send_state(actor, t.clone());
+            let d = pl.user_can_do(actor, PowerLevelAction::SendState(t.clone()));
+            (
+                h,
+                b(h),
+                b(d),
+                Sx::L(vec![lvl(pl.for_action(PowerLevelAction::SendState(t.clone()))), lvl(pl.for_state(t))]),
+            )
+        }
+        OP_NOTIFY_ROOM => {
+            let a = PowerLevelAction::TriggerNotification(NotificationPowerLevelType::Room);
+            let h = pl.user_can_trigger_room_notification(actor);
+            let d = pl.user_can_do(actor, a.clone());
+            (h, b(h), b(d), Sx::L(vec![lvl(pl.for_action(a))]))
+        }
+        OP_FOR_USER => (true, one(lvl(pl.for_user(actor))), none(), Sx::L(vec![lvl(pl.max())])),
+        OP_BAN => {
+            let h = pl.user_can_ban(actor);
+            let d = pl.user_can_do(actor, PowerLevelAction::Ban);
+            (h, b(h), b(d), Sx::L(vec![lvl(pl.for_action(PowerLevelAction::Ban))]))
+        }
+        OP_KICK => {
+            let h = pl.user_can_kick(actor);
+            let d = pl.user_can_do(actor, PowerLevelAction::Kick);
+            (h, b(h), b(d), Sx::L(vec![lvl(pl.for_action(PowerLevelAction::Kick))]))
+        }
+        OP_UNBAN => {
+            let h = pl.user_can_unban(actor);
+            let d = pl.user_can_do(actor, PowerLevelAction::Unban);
+            (h, b(h), b(d), Sx::L(vec![lvl(pl.for_action(PowerLevelAction::Unban))]))
+        }
+        OP_REDACT_OWN => {
+            let h = pl.user_can_redact_own_event(actor);
+            let d = pl.user_can_do(actor, PowerLevelAction::RedactOwn);
+            (h, b(h), b(d), Sx::L(vec![lvl(pl.for_action(PowerLevelAction::RedactOwn))]))
+        }
+        OP_REDACT_OTHER => {
+            let h = pl.user_can_redact_event_of_other(actor);
+            let d = pl.user_can_do(actor, PowerLevelAction::RedactOther);
+            (h, b(h), b(d), Sx::L(vec![lvl(pl.for_action(PowerLevelAction::RedactOther))]))
+        }
+        OP_CHANGE_LEVEL => {
+            let h = pl.user_can_change_user_power_level(actor, target);
+            let d = pl.user_can_do_to_user(actor, target, PowerLevelUserAction::ChangePowerLevel);
+            (h, b(h), b(d), Sx::L(vec![]))
+        }
+        _ => (false, none(), none(), Sx::L(vec![])),
+    }
+}
+
+/// The verdict of the other side: `auth_check`, the push condition, or state-res' user level.
+fn auth_side(c: &Case, pl: Option<&RoomPowerLevels>, state: &State, ev: Option<&Ev>) -> Option<Sx> {
+    match c.op {
+        OP_NOTIFY_ROOM => {
+            // the push condition works on the context built from the same RoomPowerLevels
+            let Some(pl) = pl else { return Some(none()) };
+            let ctx = PushConditionRoomCtx {
+                room_id: RoomId::parse(ROOM).unwrap(),
+                member_count: UInt::new(3).unwrap(),
+                user_id: UserId::parse(CREATOR).unwrap(),
+                user_display_name: "creator".to_owned(),
+                power_levels: Some(PushConditionPowerLevelsCtx::from(pl.clone())),
+            };
+            let raw: Raw<serde_json::Value> = Raw::new(&json!({
+                "type": "m.room.message", "room_id": ROOM, "sender": c.actor, "event_id": "$ev",
+                "content": { "msgtype": "m.text", "body": "@room hello" }
+            }))
+            .unwrap()
+            .cast();
+            let f = FlattenedJson::from_raw(&raw);
+            let cond = PushCondition::SenderNotificationPermission { key: "room".into() };
+            Some(one(Sx::b(cond.applies(&f, &ctx))))
+        }
+        OP_FOR_USER => {
+            let actor = <&UserId>::try_from(c.actor.as_str()).unwrap();
+            let plev = state.iter().find(|((t, _), _)| t == "m.room.power_levels").map(|(_, e)| e.clone())?;
+            let rules = rules_of(c.v);
+            Some(match RoomPowerLevelsEvent::new(plev).user_power_level(actor, &rules) {
+                Ok(l) => Sx::L(vec![Sx::N(0), lvl(l)]),
+                Err(_) => Sx::L(vec![Sx::N(1)]),
+            })
+        }
+        OP_BAN | OP_KICK | OP_UNBAN | OP_REDACT_OTHER => Some(none()),
+        _ => {
+            let ev = ev?;
+            let (out, _) = run_auth(c.v, ev, state);
+            match out.as_list()?.first()?.as_int()? {
+                0 => Some(one(Sx::b(true))),
+                1 => Some(one(Sx::b(false))),
+                _ => None, // panic
+            }
+        }
+    }
+}
+
+pub fn run_case(c: &Case) -> Sx {
+    let c = c.clone();
+    guarded(move || {
+        let state = state_of(&c);
+        let ev = minimal_event(&c);
+        let text = serde_json::to_string(&c.content).unwrap();
+        let pl: Option<RoomPowerLevels> =
+            serde_json::from_str::<RoomPowerLevelsEventContent>(&text).ok().map(RoomPowerLevels::from);
+        let Some(auth) = auth_side(&c, pl.as_ref(), &state, ev.as_ref()) else { return Sx::panic() };
+        let built = if c.extra { one(Sx::N(1)) } else { none() };
+        match &pl {
+            None => Sx::L(vec![Sx::N(1), Sx::L(vec![none(), none(), Sx::L(vec![]), auth, built, none()])]),
+            Some(pl) => {
+                let (yes, h, d, l) = helper_side(&c, pl);
+                let actor = <&UserId>::try_from(c.actor.as_str()).unwrap();
+                let target = <&UserId>::try_from(c.target.as_str()).unwrap();
+                let users = Sx::L(vec![lvl(pl.for_user(actor)), lvl(pl.for_user(target))]);
+                Sx::L(vec![Sx::N(if yes { 0 } else { 1 }), Sx::L(vec![h, d, l, auth, built, users])])
+            }
+        }
+    })
+}
+
+pub fn case_sx(c: &Case) -> Sx {
+    let extra = if c.extra {
+        let ev = minimal_event(c).map(|e| one(ev_to_sx(&e))).unwrap_or_else(none);
+        Sx::L(vec![ev, state_to_sx(&state_of(c))])
+    } else {
+        none()
+    };
+    Sx::L(vec![
+        Sx::n(c.v),
+        obj_to_sx(&c.content),
+        Sx::s(&c.actor),
+        Sx::s(&c.target),
+        Sx::opt(c.tm.as_deref().map(Sx::s)),
+        Sx::n(c.op),
+        Sx::s(&c.ty),
+        Sx::s(&c.sk),
+        Sx::N(c.n as i128),
+        extra,
+    ])
+}
+
+pub fn sx_to_case(x: &Sx) -> Option<Case> {
+    let l = x.as_list()?;
+    if l.len() != 10 {
+        return None;
+    }
+    let v = l[0].as_int()?;
+    if !(1..=11).contains(&v) {
+        return None;
+    }
+    let actor = l[2].as_string()?;
+    let target = l[3].as_string()?;
+    <&UserId>::try_from(actor.as_str()).ok()?;
+    <&UserId>::try_from(target.as_str()).ok()?;
+    let op = u8::try_from(l[5].as_int()?).ok()?;
+    if !OPS.contains(&op) {
+        return None;
+    }
+    let n = i64::try_from(l[8].as_int()?).ok()?;
+    Int::new(n)?;
+    Some(Case {
+        v: v as u32,
+        content: sx_to_obj(&l[1])?,
+        actor,
+        target,
+        tm: match l[4].as_opt()? {
+            None => None,
+            Some(s) => Some(s.as_string()?),
+        },
+        op,
+        ty: l[6].as_string()?,
+        sk: l[7].as_string()?,
+        n,
+        extra: !l[9].as_list()?.is_empty(),
+    })
+}
+
+// ---------------------------------------------------------------------------------------------
+// Generation
+// ---------------------------------------------------------------------------------------------
+struct Gen<'a> {
+    thorough: bool,
+    em: &'a mut Emitter,
+    k: u64,
+}
+
+fn mix(mut z: u64) -> u64 {
+    z = z.wrapping_add(0x9E37_79B9_7F4A_7C15);
+    z = (z ^ (z >> 30)).wrapping_mul(0xBF58_476D_1CE4_E5B9);
+    z = (z ^ (z >> 27)).wrapping_mul(0x94D0_49BB_1331_11EB);
+    z ^ (z >> 31)
+}
+
+impl Gen<'_> {
+    /// Thorough: every case.  Quick: a deterministic one in `one_in`.
+    fn emit(&mut self, tag: &str, mut c: Case, one_in: u64) {
+        self.k += 1;
+        let h = mix(self.k);
+        if !(self.thorough || one_in <= 1 || h % one_in == 0) {
+            return;
+        }
+        c.extra = (h >> 20) % 61 == 0;
+        let out = run_case(&c);
+        self.em.emit(tag, case_sx(&c), out);
+    }
+}
+
+const VERSIONS: std::ops::RangeInclusive<u32> = 3..=11;
+const MEMBERSHIPS: &[Option<&str>] = &[None, Some("join"), Some("invite"), Some("leave"), Some("ban"), Some("knock")];
+
+fn base_case(v: u32, content: CanonicalJsonObject, op: u8) -> Case {
+    Case {
+        v,
+        content,
+        actor: ALICE.to_owned(),
+        target: BOB.to_owned(),
+        tm: Some("join".to_owned()),
+        op,
+        ty: String::new(),
+        sk: String::new(),
+        n: 0,
+        extra: false,
+    }
+}
+
+/// How a level field is written; `None` = left out (its default applies).
+#[derive(Clone, Debug)]
+struct Shape(Option<Lv>, i64);
+
+fn shapes(default: i64, others: &[i64], strs: &[i64]) -> Vec<Shape> {
+    let mut v = vec![Shape(None, default), Shape(Some(Lv::Int(default)), default)];
+    for &o in others {
+        v.push(Shape(Some(Lv::Int(o)), o));
+    }
+    for &s in strs {
+        v.push(Shape(Some(Lv::Str(s.to_string())), s));
+    }
+    v
+}
+
+fn put_field(pl: Pl, name: &'static str, s: &Shape) -> Pl {
+    match &s.0 {
+        None => pl,
+        Some(l) => pl.field(name, l.clone()),
+    }
+}
+
+/// Where the actor's level `a` comes from.
+#[derive(Clone, Copy, Debug, PartialEq)]
+enum Src {
+    EntryInt,
+    EntryStr,
+    DefaultInt,
+    DefaultStr,
+    DefaultAbsent,
+}
+
+fn actor_sources(a: i64, wide: bool) -> Vec<Src> {
+    let mut v = vec![Src::EntryInt, Src::EntryStr, Src::DefaultInt];
+    if wide {
+        v.push(Src::DefaultStr);
+    }
+    if a == 0 {
+        v.push(Src::DefaultAbsent);
+    }
+    v
+}
+
+fn put_actor(pl: Pl, src: Src, a: i64) -> Pl {
+    match src {
+        Src::EntryInt => pl.user(ALICE, Lv::Int(a)),
+        Src::EntryStr => pl.user(ALICE, Lv::Str(a.to_string())),
+        Src::DefaultInt => pl.field("users_default", Lv::Int(a)),
+        Src::DefaultStr => pl.field("users_default", Lv::Str(format!(" {a} "))),
+        Src::DefaultAbsent => pl,
+    }
+}
+
+/// The target at level `a + eps`, by an entry of its own or by `users_default`; with the actor.
+fn actor_target_worlds(pl: &Pl, a: i64, wide: bool) -> Vec<Pl> {
+    let mut out = vec![];
+    for src in actor_sources(a, wide) {
+        let with_actor = put_actor(pl.clone(), src, a);
+        let by_entry = matches!(src, Src::EntryInt | Src::EntryStr);
+        for eps in [-1i64, 0, 1] {
+            let t = a + eps;
+            out.push(with_actor.clone().user(BOB, Lv::Int(t)));
+            if wide || !by_entry {
+                out.push(with_actor.clone().user(BOB, Lv::Str(t.to_string())));
+            }
+            if by_entry {
+                // the target falls back to users_default
+                out.push(with_actor.clone().field("users_default", Lv::Int(t)));
+                if t == 0 {
+                    out.push(with_actor.clone());
+                }
+            } else if eps == 0 {
+                out.push(with_actor.clone());
+            }
+        }
+    }
+    out
+}
+
+fn actor_worlds(pl: &Pl, a: i64, wide: bool) -> Vec<Pl> {
+    actor_sources(a, wide).into_iter().map(|s| put_actor(pl.clone(), s, a)).collect()
+}
+
+/// ban_user / invite: one threshold field.
+fn sys_one_threshold(g: &mut Gen<'_>, op: u8, field: &'static str, default: i64) {
+    for shape in shapes(default, &[30, 0, -7, 100], &[30]) {
+        let pl = put_field(Pl::default(), field, &shape);
+        for delta in [-1i64, 0, 1] {
+            let a = shape.1 + delta;
+            for world in actor_target_worlds(&pl, a, true) {
+                let content = world.content();
+                for v in VERSIONS {
+                    for tm in MEMBERSHIPS {
+                        let mut c = base_case(v, content.clone(), op);
+                        c.tm = tm.map(str::to_owned);
+                        g.emit("sys-threshold", c, 10);
+                    }
+                }
+            }
+        }
+    }
+}
+
+/// kick_user / unban_user: the `leave` event, two thresholds.
+fn sys_leave(g: &mut Gen<'_>) {
+    let absent = |d| Shape(None, d);
+    let int = |x| Shape(Some(Lv::Int(x)), x);
+    let st = |x: i64| Shape(Some(Lv::Str(x.to_string())), x);
+    let pairs: Vec<(Shape, Shape)> = vec![
+        (absent(50), absent(50)),
+        (int(30), int(60)),
+        (int(60), int(30)),
+        (int(40), int(40)),
+        (absent(50), int(20)),
+        (int(20), absent(50)),
+        (absent(50), int(80)),
+        (int(80), absent(50)),
+        (st(30), st(60)),
+        (int(0), int(-5)),
+    ];
+    for (kick, ban) in pairs {
+        let pl = put_field(put_field(Pl::default(), "kick", &kick), "ban", &ban);
+        let mut levels: Vec<i64> = vec![kick.1 - 1, kick.1, kick.1 + 1, ban.1 - 1, ban.1, ban.1 + 1];
+        levels.sort();
+        levels.dedup();
+        for a in levels {
+            for world in actor_target_worlds(&pl, a, false) {
+                let content = world.content();
+                for v in VERSIONS {
+                    for tm in MEMBERSHIPS {
+                        for op in [OP_KICK_USER, OP_UNBAN_USER] {
+                            let mut c = base_case(v, content.clone(), op);
+                            c.tm = tm.map(str::to_owned);
+                            g.emit("sys-leave", c, 10);
+                        }
+                    }
+                }
+            }
+        }
+    }
+}
+
+/// Actor and target the same user, and a target that is the room creator.
+fn sys_pairs(g: &mut Gen<'_>) {
+    for (kick, ban, invite) in [(50, 50, 0), (10, 20, 30), (30, 20, 10)] {
+        let pl = Pl::default().field("kick", Lv::Int(kick)).field("ban", Lv::Int(ban)).field("invite", Lv::Int(invite));
+        for a in [9i64, 10, 19, 20, 29, 30, 49, 50, 51] {
+            for world in actor_worlds(&pl, a, false) {
+                for (target, tl) in [(ALICE, None), (CREATOR, Some(a - 1)), (CREATOR, Some(a)), (CAROL, None)] {
+                    let w = match tl {
+                        Some(t) => world.clone().user(target, Lv::Int(t)),
+                        None => world.clone(),
+                    };
+                    let content = w.content();
+                    for v in VERSIONS {
+                        for tm in MEMBERSHIPS {
+                            for op in [OP_BAN_USER, OP_KICK_USER, OP_UNBAN_USER, OP_INVITE, OP_CHANGE_LEVEL] {
+                                let mut c = base_case(v, content.clone(), op);
+                                c.target = target.to_owned();
+                                c.tm = tm.map(str::to_owned);
+                                c.n = a - 1;
+                                g.emit("sys-pairs", c, 20);
+                            }
+                        }
+                    }
+                }
+            }
+        }
+    }
+}
+
+const MESSAGE_TYPES: &[&str] = &[
+    "m.room.message",
+    "m.reaction",
+    "m.room.redaction",
+    "m.room.encrypted",
+    "org.example.custom",
+    "org.matrix.call.sdp_stream_metadata_changed",
+    "m.call.sdp_stream_metadata_changed",
+];
+
+const STATE_TYPES: &[&str] = &[
+    "m.room.topic",
+    "m.room.name",
+    "m.room.join_rules",
+    "m.room.power_levels",
+    "m.room.aliases",
+    "m.room.third_party_invite",
+    "org.example.state",
+    "org.matrix.call.sdp_stream_metadata_changed",
+];
+
+fn sys_send_message(g: &mut Gen<'_>) {
+    for ty in MESSAGE_TYPES {
+        for entry in [None, Some(Lv::Int(10)), Some(Lv::Int(0)), Some(Lv::Int(-2)), Some(Lv::Str("10".into()))] {
+            for dflt in shapes(0, &[5, 50], &[5]) {
+                for noise in 0..3 {
+                    let mut pl = put_field(Pl::default(), "events_default", &dflt);
+                    if let Some(e) = &entry {
+                        pl = pl.event(ty, e.clone());
+                    }
+                    match noise {
+                        1 => pl = pl.event("m.room.other", Lv::Int(77)).field("state_default", Lv::Int(3)),
+                        2 => {
+                            // the alias and the standard name of the same type, both present
+                            pl = pl
+                                .event("org.matrix.call.sdp_stream_metadata_changed", Lv::Int(21))
+                                .event("m.call.sdp_stream_metadata_changed", Lv::Int(12));
+                        }
+                        _ => {}
+                    }
+                    let need = match &entry {
+                        Some(Lv::Int(i)) => *i,
+                        Some(_) => 10,
+                        None => dflt.1,
+                    };
+                    for delta in [-1i64, 0, 1] {
+                        for world in actor_worlds(&pl, need + delta, true) {
+                            let content = world.content();
+                            for v in VERSIONS {
+                                let mut c = base_case(v, content.clone(), OP_SEND_MESSAGE);
+                                c.ty = (*ty).to_owned();
+                                g.emit("sys-message", c, 10);
+                            }
+                        }
+                    }
+                }
+            }
+        }
+    }
+}
+
+fn sys_send_state(g: &mut Gen<'_>) {
+    for ty in STATE_TYPES {
+        for entry in [None, Some(Lv::Int(70)), Some(Lv::Int(0)), Some(Lv::Str("70".into()))] {
+            for dflt in shapes(50, &[20], &[20]) {
+                let mut pl = put_field(Pl::default(), "state_default", &dflt).field("events_default", Lv::Int(33));
+                if let Some(e) = &entry {
+                    pl = pl.event(ty, e.clone());
+                }
+                let need = match &entry {
+                    Some(Lv::Int(i)) => *i,
+                    Some(_) => 70,
+                    None => dflt.1,
+                };
+                for delta in [-1i64, 0, 1] {
+                    for world in actor_worlds(&pl, need + delta, false) {
+                        let content = world.content();
+                        for v in VERSIONS {
+                            for sk in ["", ALICE, BOB, "@", "@alice:s1x", "s1", "x"] {
+                                let mut c = base_case(v, content.clone(), OP_SEND_STATE);
+                                c.ty = (*ty).to_owned();
+                                c.sk = sk.to_owned();
+                                g.emit("sys-state", c, 10);
+                            }
+                        }
+                    }
+                }
+            }
+        }
+    }
+}
+
+/// redact_own / redact_other / third-party invites / the helpers without a target.
+fn sys_misc(g: &mut Gen<'_>) {
+    // redaction: `redact` and events[m.room.redaction] / events_default
+    for redact in shapes(50, &[10, 70], &[10]) {
+        for entry in [None, Some(Lv::Int(40)), Some(Lv::Int(0))] {
+            for dflt in shapes(0, &[25], &[]) {
+                let mut pl = put_field(put_field(Pl::default(), "redact", &redact), "events_default", &dflt);
+                if let Some(e) = &entry {
+                    pl = pl.event("m.room.redaction", e.clone());
+                }
+                let need = match &entry {
+                    Some(Lv::Int(i)) => *i,
+                    _ => dflt.1,
+                };
+                let mut levels = vec![need - 1, need, need + 1, redact.1 - 1, redact.1, redact.1 + 1];
+                levels.sort();
+                levels.dedup();
+                for a in levels {
+                    for world in actor_worlds(&pl, a, false) {
+                        let content = world.content();
+                        for v in VERSIONS {
+                            for op in [OP_REDACT_OWN, OP_REDACT_OTHER] {
+                                g.emit("sys-redact", base_case(v, content.clone(), op), 10);
+                            }
+                        }
+                    }
+                }
+            }
+        }
+    }
+    // m.room.third_party_invite is gated by `invite`, whatever events / state_default say
+    for invite in shapes(0, &[30, 60], &[30]) {
+        for entry in [None, Some(Lv::Int(45))] {
+            for sd in shapes(50, &[20], &[]) {
+                let mut pl = put_field(put_field(Pl::default(), "invite", &invite), "state_default", &sd);
+                if let Some(e) = &entry {
+                    pl = pl.event("m.room.third_party_invite", e.clone());
+                }
+                for delta in [-1i64, 0, 1] {
+                    for world in actor_worlds(&pl, invite.1 + delta, false) {
+                        let content = world.content();
+                        for v in VERSIONS {
+                            for sk in ["token", ""] {
+                                let mut c = base_case(v, content.clone(), OP_THIRD_PARTY_INVITE);
+                                c.sk = sk.to_owned();
+                                g.emit("sys-3pid", c, 10);
+                            }
+                        }
+                    }
+                }
+            }
+        }
+    }
+    // ban / kick / unban without a target: for_action and user_can_do
+    for kick in shapes(50, &[30, 60], &[30]) {
+        for ban in shapes(50, &[30, 60], &[60]) {
+            let pl = put_field(put_field(Pl::default(), "kick", &kick), "ban", &ban);
+            let mut levels = vec![kick.1 - 1, kick.1, kick.1 + 1, ban.1 - 1, ban.1, ban.1 + 1];
+            levels.sort();
+            levels.dedup();
+            for a in levels {
+                for world in actor_worlds(&pl, a, true) {
+                    let content = world.content();
+                    for op in [OP_BAN, OP_KICK, OP_UNBAN] {
+                        g.emit("sys-no-target", base_case(9, content.clone(), op), 4);
+                    }
+                }
+            }
+        }
+    }
+}
+
+fn notif_values() -> Vec<(Option<CanonicalJsonValue>, Option<i64>)> {
+    vec![
+        (None, Some(50)),
+        (Some(cj(json!({}))), Some(50)),
+        (Some(cj(json!({"room": 50}))), Some(50)),
+        (Some(cj(json!({"room": 20}))), Some(20)),
+        (Some(cj(json!({"room": 0}))), Some(0)),
+        (Some(cj(json!({"room": 70, "other": 5}))), Some(70)),
+        (Some(cj(json!({"room": "20"}))), Some(20)),
+        (Some(cj(json!({"room": " +20 "}))), Some(20)),
+        (Some(cj(json!({"other": 20}))), Some(50)),
+        (Some(cj(json!({"other": "x"}))), Some(50)),
+        (Some(cj(json!([]))), Some(50)),
+        (Some(cj(json!([20]))), Some(20)),
+        (Some(cj(json!(["20"]))), Some(20)),
+        (Some(cj(json!([20, 30]))), None),
+        (Some(cj(json!({"room": null}))), None),
+        (Some(cj(json!({"room": "x"}))), None),
+        (Some(cj(json!({"room": [20]}))), None),
+        (Some(CanonicalJsonValue::Null), None),
+        (Some(cj(json!(20))), None),
+        (Some(cj(json!("room"))), None),
+    ]
+}
+
+fn sys_notifications(g: &mut Gen<'_>) {
+    for (value, level) in notif_values() {
+        let mut pl = Pl::default();
+        if let Some(v) = &value {
+            pl.extra.push(("notifications", v.clone()));
+        }
+        let need = level.unwrap_or(50);
+        for delta in [-1i64, 0, 1] {
+            for world in actor_worlds(&pl, need + delta, true) {
+                let content = world.content();
+                for v in [3, 5, 6, 9, 10, 11] {
+                    g.emit("sys-notify", base_case(v, content.clone(), OP_NOTIFY_ROOM), 2);
+                    // the same contents through the helpers that do not read `notifications`
+                    g.emit("sys-notify", base_case(v, content.clone(), OP_FOR_USER), 4);
+                    g.emit("sys-notify", base_case(v, content.clone(), OP_BAN_USER), 4);
+                }
+            }
+        }
+    }
+}
+
+fn sys_for_user(g: &mut Gen<'_>) {
+    const MAXI: i64 = 9007199254740991;
+    for a in [-MAXI, -51, -1, 0, 1, 49, 50, 51, 100, MAXI] {
+        for dflt in shapes(0, &[7, -3, MAXI], &[7]) {
+            let pl = put_field(Pl::default(), "users_default", &dflt);
+            let mut worlds = vec![
+                pl.clone(),
+                pl.clone().user(ALICE, Lv::Int(a)),
+                pl.clone().user(ALICE, Lv::Str(a.to_string())),
+                pl.clone().user(ALICE, Lv::Str(format!("\t{a}\n"))),
+                pl.clone().user(BOB, Lv::Int(a)),
+                pl.clone().user(BOB, Lv::Int(a)).user(ALICE, Lv::Int(a - a.signum())).user(CAROL, Lv::Int(3)),
+            ];
+            if a >= 0 {
+                worlds.push(pl.clone().user(ALICE, Lv::Str(format!("+{a}"))));
+            }
+            for world in worlds {
+                let content = world.content();
+                for v in VERSIONS {
+                    g.emit("sys-level", base_case(v, content.clone(), OP_FOR_USER), 5);
+                }
+            }
+        }
+    }
+}
+
+fn sys_change_level(g: &mut Gen<'_>) {
+    for entry in [None, Some(Lv::Int(60))] {
+        for sd in shapes(50, &[40], &[]) {
+            let mut pl = put_field(Pl::default(), "state_default", &sd);
+            if let Some(e) = &entry {
+                pl = pl.event("m.room.power_levels", e.clone());
+            }
+            let need = match &entry {
+                Some(Lv::Int(i)) => *i,
+                _ => sd.1,
+            };
+            for delta in [-1i64, 0, 1] {
+                let a = need + delta;
+                for src in [Src::EntryInt, Src::DefaultInt] {
+                    let with_actor = put_actor(pl.clone(), src, a);
+                    // the target: the actor, an entry below / at / above the actor, or no entry
+                    let mut targets: Vec<(String, Pl, Option<i64>)> = vec![
+                        (ALICE.to_owned(), with_actor.clone(), if src == Src::EntryInt { Some(a) } else { None }),
+                        (BOB.to_owned(), with_actor.clone(), None),
+                    ];
+                    for eps in [-1i64, 0, 1] {
+                        targets.push((BOB.to_owned(), with_actor.clone().user(BOB, Lv::Int(a + eps)), Some(a + eps)));
+                    }
+                    for (target, world, cur) in targets {
+                        let content = world.content();
+                        let mut news = vec![a - 1, a, a + 1];
+                        if let Some(cur) = cur {
+                            news.push(cur);
+                        }
+                        news.sort();
+                        news.dedup();
+                        for n in news {
+                            for v in VERSIONS {
+                                let mut c = base_case(v, content.clone(), OP_CHANGE_LEVEL);
+                                c.target = target.clone();
+                                c.n = n;
+                                g.emit("sys-change-level", c, 5);
+                            }
+                        }
+                    }
+                }
+            }
+        }
+    }
+}
+
+fn bad_values() -> Vec<CanonicalJsonValue> {
+    let mut v = vec![
+        CanonicalJsonValue::Null,
+        cj(json!(true)),
+        cj(json!([])),
+        cj(json!({})),
+        cj(json!([50])),
+        cj(json!({"50": 50})),
+        cj(json!(9007199254740991i64)),
+        cj(json!(-9007199254740991i64)),
+    ];
+    for s in LEVEL_STRINGS {
+        v.push(CanonicalJsonValue::String((*s).to_owned()));
+    }
+    v
+}
+
+/// One ill-typed (or unusually written) value in one place of an otherwise ordinary content,
+/// through the helpers that do and do not read that place.
+fn malformed(g: &mut Gen<'_>) {
+    let base = || {
+        Pl::default()
+            .user(ALICE, Lv::Int(50))
+            .user(BOB, Lv::Int(10))
+            .event("m.room.message", Lv::Int(50))
+            .event("m.room.topic", Lv::Int(50))
+            .notif("room", Lv::Int(50))
+    };
+    let ops: &[(u8, &str)] = &[
+        (OP_BAN_USER, ""),
+        (OP_KICK_USER, ""),
+        (OP_UNBAN_USER, ""),
+        (OP_INVITE, ""),
+        (OP_SEND_MESSAGE, "m.room.message"),
+        (OP_SEND_STATE, "m.room.topic"),
+        (OP_SEND_STATE, "m.room.power_levels"),
+        (OP_NOTIFY_ROOM, ""),
+        (OP_FOR_USER, ""),
+        (OP_REDACT_OTHER, ""),
+    ];
+    let mut contents: Vec<CanonicalJsonObject> = vec![];
+    for bad in bad_values() {
+        for f in ["ban", "kick", "invite", "redact", "state_default", "events_default", "users_default"] {
+            contents.push(base().field(f, Lv::Raw(bad.clone())).content());
+        }
+        contents.push(base().user(ALICE, Lv::Raw(bad.clone())).content());
+        contents.push(base().user(BOB, Lv::Raw(bad.clone())).content());
+        contents.push(base().user(CAROL, Lv::Raw(bad.clone())).content());
+        contents.push(base().event("m.room.message", Lv::Raw(bad.clone())).content());
+        contents.push(base().event("m.room.other", Lv::Raw(bad.clone())).content());
+        contents.push(base().notif("room", Lv::Raw(bad.clone())).content());
+        contents.push(base().notif("other", Lv::Raw(bad.clone())).content());
+        for k in ["users", "events", "notifications", "unknown_field"] {
+            let mut p = base();
+            p.extra.push((k, bad.clone()));
+            contents.push(p.content());
+        }
+    }
+    for key in ["bob", "@bob", "@bob:", "@:s1", "", "@bob:s1:x", "@b\u{0}b:s1", "@BOB:s1", "@bob:s 1", "!bob:s1", "@bob:s1:80"] {
+        contents.push(base().user(key, Lv::Int(50)).content());
+        contents.push(base().user(key, Lv::Str("x".into())).content());
+    }
+    for key in ["", "m.room.message ", "M.ROOM.MESSAGE", "m.room.*", "\u{e9}"] {
+        contents.push(base().event(key, Lv::Int(99)).content());
+    }
+    for content in contents {
+        for (op, ty) in ops {
+            for v in [3u32, 9, 10, 11] {
+                let mut c = base_case(v, content.clone(), *op);
+                c.ty = (*ty).to_owned();
+                if *op == OP_UNBAN_USER {
+                    c.tm = Some("ban".to_owned());
+                }
+                if *op == OP_INVITE {
+                    c.tm = Some("leave".to_owned());
+                }
+                g.emit("malformed", c, 4);
+            }
+        }
+    }
+}
+
+const POOL: &[i64] = &[-1, 0, 1, 19, 20, 21, 49, 50, 51, 99, 100, 101];
+
+fn rand_level(r: &mut Rng) -> Lv {
+    let x = *r.pick(POOL);
+    match r.below(20) {
+        0 => Lv::Str(x.to_string()),
+        1 => Lv::Str(format!(" {x}")),
+        2 if x >= 0 => Lv::Str(format!("+{x}")),
+        3 => Lv::Raw(r.pick(&bad_values()).clone()),
+        _ => Lv::Int(x),
+    }
+}
+
+fn random(g: &mut Gen<'_>, r: &mut Rng, n: usize) {
+    for _ in 0..n {
+        let mut pl = Pl::default();
+        for f in ["ban", "kick", "invite", "redact", "state_default", "events_default", "users_default"] {
+            if r.chance(1, 2) {
+                pl = pl.field(f, rand_level(r));
+            }
+        }
+        for u in [ALICE, BOB, CAROL, CREATOR] {
+            if r.chance(1, 2) {
+                pl = pl.user(u, rand_level(r));
+            }
+        }
+        if r.chance(1, 8) && pl.users.is_none() {
+            pl.users = Some(vec![]);
+        }
+        let ty_pool: Vec<&str> = MESSAGE_TYPES.iter().chain(STATE_TYPES.iter()).copied().collect();
+        for _ in 0..r.below(4) {
+            let t: &str = ty_pool[r.below(ty_pool.len())];
+            pl = pl.event(t, rand_level(r));
+        }
+        match r.below(6) {
+            0 => pl = pl.notif("room", rand_level(r)),
+            1 => pl = pl.notif("other", rand_level(r)),
+            2 => pl.extra.push(("notifications", r.pick(&notif_values()).0.clone().unwrap_or(cj(json!({}))))),
+            _ => {}
+        }
+        let op = *r.pick(OPS);
+        let mut c = base_case(3 + r.below(9) as u32, pl.content(), op);
+        c.tm = r.pick(MEMBERSHIPS).map(str::to_owned);
+        if r.chance(1, 12) {
+            c.tm = Some("weird".to_owned());
+        }
+        if r.chance(1, 10) {
+            c.target = (*r.pick(&[ALICE, CAROL, CREATOR])).to_owned();
+        }
+        if r.chance(1, 20) {
+            c.actor = CAROL.to_owned();
+        }
+        match op {
+            OP_SEND_MESSAGE => c.ty = (*r.pick(MESSAGE_TYPES)).to_owned(),
+            OP_SEND_STATE => {
+                c.ty = (*r.pick(STATE_TYPES)).to_owned();
+                c.sk = (*r.pick(&["", "", "", ALICE, BOB, "@x", "k"])).to_owned();
+            }
+            OP_THIRD_PARTY_INVITE => c.sk = "token".to_owned(),
+            OP_CHANGE_LEVEL => c.n = *r.pick(POOL),
+            _ => {}
+        }
+        g.emit("random", c, 1);
+    }
+}
+
+pub fn run(tier: &str, seed: u64, em: &mut Emitter) {
+    let thorough = tier == "thorough";
+    let mut g = Gen { thorough, em, k: seed.wrapping_mul(0x1000_0000_01B3) };
+    sys_one_threshold(&mut g, OP_BAN_USER, "ban", 50);
+    sys_one_threshold(&mut g, OP_INVITE, "invite", 0);
+    sys_leave(&mut g);
+    sys_pairs(&mut g);
+    sys_send_message(&mut g);
+    sys_send_state(&mut g);
+    sys_misc(&mut g);
+    sys_notifications(&mut g);
+    sys_for_user(&mut g);
+    sys_change_level(&mut g);
+    malformed(&mut g);
+    let mut r = Rng::new(seed ^ 0xC20);
+    random(&mut g, &mut r, if thorough { 60_000 } else { 6_000 });
+}
+
+pub fn replay(case: &Sx) -> Option<Sx> {
+    let c = sx_to_case(case)?;
+    Some(run_case(&c))
+}
+
+/// The defaults ruma-events gives to the fields of an `m.room.power_levels` content: what `{}`
+/// deserializes to, what `RoomPowerLevelsEventContent::new()` holds and what the redacted form
+/// deserializes to must agree; one `name = value` per line for tools/translators/c20.py.
+pub fn dump(dir: &str) {
+    let show = |p: &RoomPowerLevels| -> BTreeMap<&'static str, i64> {
+        let mut m = BTreeMap::new();
+        m.insert("ban", i64::from(p.ban));
+        m.insert("events_default", i64::from(p.events_default));
+        m.insert("invite", i64::from(p.invite));
+        m.insert("kick", i64::from(p.kick));
+        m.insert("redact", i64::from(p.redact));
+        m.insert("state_default", i64::from(p.state_default));
+        m.insert("users_default", i64::from(p.users_default));
+        m.insert("notifications_room", i64::from(p.notifications.room));
+        m.insert("events_len", p.events.len() as i64);
+        m.insert("users_len", p.users.len() as i64);
+        m
+    };
+    let from_empty: RoomPowerLevels = serde_json::from_str::<RoomPowerLevelsEventContent>("{}").unwrap().into();
+    let from_new: RoomPowerLevels = RoomPowerLevelsEventContent::new().into();
+    let from_redacted: RoomPowerLevels =
+        serde_json::from_str::<RedactedRoomPowerLevelsEventContent>("{}").unwrap().into();
+    let mut out = String::new();
+    for (tag, p) in [("deserialized", &from_empty), ("new", &from_new), ("redacted", &from_redacted)] {
+        for (k, v) in show(p) {
+            out.push_str(&format!("{tag}.{k} = {v}\n"));
+        }
+    }
+    let empty_notif: RoomPowerLevels =
+        serde_json::from_str::<RoomPowerLevelsEventContent>(r#"{"notifications":{}}"#).unwrap().into();
+    out.push_str(&format!("empty_notifications.notifications_room = {}\n", i64::from(empty_notif.notifications.room)));
+    std::fs::write(format!("{dir}/power_level_defaults.txt"), out).unwrap();
+
+    // Event-type aliases as the two enums the helpers take read them (the keys of `events` go
+    // through TimelineEventType: C08's table).  Probed on every string literal of enums.rs.
+    let src = std::fs::read_to_string("/repo/crates/ruma-events/src/enums.rs").unwrap_or_default();
+    let mut lits: Vec<String> = vec![];
+    for lit in src.split('"') {
+        if !lit.is_empty() && lit.len() < 100 && lit.bytes().all(|b| b > 32 && b < 127 && b != b'\\') {
+            lits.push(lit.to_owned());
+        }
+    }
+    lits.sort();
+    lits.dedup();
+    let mut out = String::new();
+    for l in &lits {
+        let m = ruma_events::TimelineEventType::from(MessageLikeEventType::from(l.as_str())).to_string();
+        if &m != l {
+            out.push_str(&format!("message\t{l}\t{m}\n"));
+        }
+        let s = ruma_events::TimelineEventType::from(StateEventType::from(l.as_str())).to_string();
+        if &s != l {
+            out.push_str(&format!("state\t{l}\t{s}\n"));
+        }
+    }
+    std::fs::write(format!("{dir}/power_level_type_aliases.txt"), out).unwrap();
+}
